@@ -46,6 +46,10 @@ partial def run (st : St) : List String → St
     match decBytes k, decList vs with
     | some k, some vs => run { st with s := setGenHeader st.s k vs } rest
     | _, _ => { st with bad := true }
+  | "genraw" :: k :: vs :: rest =>
+    match decBytes k, decList vs with
+    | some k, some vs => run { st with s := setGenRaw st.s k vs } rest
+    | _, _ => { st with bad := true }
   | "pre" :: k :: v :: rest =>
     match decBytes k, decBytes v with
     | some k, some v => run { st with s := setPreformatted st.s k v } rest
